@@ -53,6 +53,7 @@ type RuleStat struct {
 
 // Ctx is the loaded program plus the obligation log.
 type Ctx struct {
+	parseDegreeFolded  bool                                     // note.ParseDegree was decided on its spelling domain (rules_wire.go)
 	degreeSearchFolded bool                                     // op.ScaleNote.GetDegree was decided on its whole domain (rules_wire.go)
 	globalRaw          map[*ssa.Global]Val                      // consteval values of immutable globals (fold.go)
 	callersOf          map[*ssa.Function]map[*ssa.Function]bool // static callers (rules_c09.go ownerName)
